@@ -630,6 +630,36 @@ def _mem_swap(m, st, fr, callee, args, dest_ty, term):
     return UNIT
 
 
+def _mem_take(m, st, fr, callee, args, dest_ty, term):
+    """core::mem::take(&mut x): returns the old value and leaves T::default() behind"""
+    a = args[0]
+    if a[0] != 'ref':
+        return ('unknown', 'mem::take of a non-reference')
+    sx = m.sx
+    old = sx.read_cell(st, a[1], a[2])
+    targs = callee.get('targs') or []
+    ty = targs[0] if targs else None
+    d = _default_of(ty)
+    if d is not None:
+        sx.write_cell(st, a[1], a[2], d)
+        return old
+    if ty is not None and ty.get('adt') and ty.get('local'):
+        imps = sx.facts.trait_impls('core::default::Default', self_adt=ty.get('adt'))
+        defs = [it['def'] for imp in imps for it in imp['items'] if it['name'] == 'default' and it['def'] in sx.facts.fns]
+        if len(defs) == 1:
+            insts = sx.facts.root_instance(defs[0])
+            dest = sx.resolve_place(st, fr, term['dest'])
+            target = term['target']
+
+            def then(sx_, s, v):
+                sx_.write_cell(s, a[1], a[2], v)
+                return sx_.continue_with(s, old, dest, target)
+            tmp = sx.new_heap(None, None)
+            sx.call_local(st, fr, insts, 0, [], (tmp, ()), ('then', then))
+            return [(st, None)]
+    return ('unknown', 'mem::take of %s' % (ty or {}).get('s'))
+
+
 def _mem_replace(m, st, fr, callee, args, dest_ty, term):
     a = args[0]
     if a[0] != 'ref':
@@ -1335,6 +1365,7 @@ MODELS = {
     'core::cmp::Ord::clamp': _ord_clamp,
     'core::mem::swap': _mem_swap,
     'core::mem::replace': _mem_replace,
+    'core::mem::take': _mem_take,
     'core::option::Option::map_or': _opt_map_or,
     'core::option::Option::map': _opt_map,
     'core::option::Option::and_then': _opt_and_then,
